@@ -311,19 +311,21 @@ def mon_bridge(pid, run):
     paid_notices, refund_notices, dep_notices = [], [], []
     nonce_next = None
     reused = set()
+    requested = set()
     for i, (op, impl) in enumerate(zip(run.ops, run.impl)):
         kind = op.split(" ")[1]
         a = kv(op)
         if kind == "reset":
-            last_w, delivered, paid_notices, refund_notices, dep_notices, nonce_next, reused = {}, [], [], [], [], None, set()
+            last_w, delivered, paid_notices, refund_notices, dep_notices, nonce_next, reused, requested = {}, [], [], [], [], None, set(), set()
             continue
         if kind == "init.btc":
             nonce_next = int(a["nonce"])
         if kind == "req.bridge" and crit(impl).startswith("ok"):
             for it in _lst(a.get("withdraws", "-")):
                 wid = int(it.split("|")[0])
-                if wid in last_w:
-                    reused.add(wid)   # id reuse is excluded by the environment hypothesis (bridge contract counter)
+                if wid in last_w or wid in requested:
+                    reused.add(wid)   # id reuse (also inside one request list) is excluded by the environment hypothesis (bridge contract counter)
+                requested.add(wid)
         if kind == "btc.dequeue" and crit(impl).startswith("ok"):
             m = re.search(r"txs=(\S+)", impl)
             txs = _lst(m.group(1) if m else "-")
@@ -431,7 +433,31 @@ def div_c05(w):
     return k in ("tx.process", "tx.replace", "tx.finalize", "tx.approve") and crit(w["impl"]) == "ok" and crit(w["model"]) != "ok"
 
 
-DIV_RULES["C03"] = div_c03
+def differing_items(impl, model):
+    """list items (comma separated, per key=value token) present on one side only"""
+    out = []
+    ta, tb = crit(impl).split(" "), crit(model).split(" ")
+    for x, y in zip(ta, tb):
+        if x != y and "=" in x and "=" in y:
+            k = x.split("=", 1)[0]
+            xs, ys = set(x.split("=", 1)[1].split(",")), set(y.split("=", 1)[1].split(","))
+            out += [(k, i, "impl") for i in xs - ys] + [(k, i, "model") for i in ys - xs]
+    return out
+
+
+def div_c03_full(w):
+    """(a) a batch credited that the model rejects (C03_accept_implies); (b) a credit whose amount/tax differs from
+    the model's, which is proved to be the property's formula (C03_value_exact, C20.tax_formula): the deposit is
+    credited with a value other than the one the property prescribes"""
+    if div_c03(w):
+        return True
+    k = w["op"].split(" ")[1]
+    if k in ("btc.dequeue", "dump.btc"):
+        return any(it.startswith("dep|") or key in ("qdep", "deposited") for key, it, _ in differing_items(w["impl"], w["model"]))
+    return False
+
+
+DIV_RULES["C03"] = div_c03_full
 DIV_RULES["C05"] = div_c05
 
 
@@ -567,3 +593,19 @@ DIV_RULES["C02"] = div_c01
 DIV_RULES["C08"] = div_accepts({"a.process"})
 DIV_RULES["C10"] = div_accepts({"a.checktx", "tx.generic", "tx.hashes", "tx.pubkey", "tx.deposits", "tx.process", "tx.replace", "tx.finalize", "tx.approve", "tx.consolidate", "tx.newvoter", "tx.accept", "tx.ethblock"})
 DIV_RULES["C09"] = lambda w: w["op"].split(" ")[1] == "a.end" and crit(w["impl"]).startswith("ok") and crit(w["model"]).startswith("halt")
+
+
+def div_c14(w):
+    """who is jailed for downtime / tombstoned for double-signing by a begin-block hook is pinned exactly by the
+    model (theorems downtime_exact, non_active_not_counted, evidence_tombstones, stale_evidence_ignored,
+    tombstoned_not_slashed_again): the implementation punishing a validator the model does not (or the reverse)
+    on the same votes and evidence is a concrete failing history"""
+    if w["op"].split(" ")[1] != "hook.lock.begin":
+        return False
+    return any(k == "pun" for k, _, _ in differing_items(w["impl"], w["model"]))
+
+
+DIV_RULES["C14"] = div_c14
+
+
+DIV_RULES["C18"] = lambda w: w["op"].split(" ")[1] == "a.export" and "lr=0" in crit(w["impl"])
